@@ -443,7 +443,7 @@ func runCore(t *testing.T, cfg coreCfg) {
 	if cfg.metamorphic && shard == 0 {
 		runMetamorphic(t, st, cfg, base)
 	}
-	if cfg.extra != nil && len(st.Violations) == 0 && shard == 0 {
+	if cfg.extra != nil && !hasConcrete(st.Violations) && shard == 0 {
 		cfg.extra(t, st)
 	}
 	st.Set("evaluations", nOps)
@@ -540,6 +540,7 @@ func runMetamorphic(t *testing.T, st *Stats, cfg coreCfg, base int64) {
 	if Tier() == "thorough" {
 		pairs = 150
 	}
+	knownSeen := map[string]bool{}
 	// the directed histories of the corpus that contain maintenance jobs, with and without them
 	corpus, _ := filepath.Glob(filepath.Join(corpusDir(), "*.json"))
 	for _, cf := range corpus {
@@ -620,9 +621,16 @@ func runMetamorphic(t *testing.T, st *Stats, cfg coreCfg, base int64) {
 			if diff < len(b) {
 				y = b[diff]
 			}
+			if knownSeen[sig] {
+				continue // a listed finding, already recorded once: the remaining pairs are still explored
+			}
 			pth := writeReplay(fmt.Sprintf("C15-%s-%d.json", sig, seed), replayFile{Property: "C15", Sig: sig, Seed: seed, Ops: with.Ops,
 				What: fmt.Sprintf("client-visible step %d differs: with maintenance %q / without %q", diff, x, y)})
 			st.Violate(Violation{What: fmt.Sprintf("[%s] running the maintenance jobs changed what clients observe: step %d with jobs %q, without %q", sig, diff, x, y), Replay: pth, FoundInput: true, Sig: sig})
+			if strings.Contains(","+os.Getenv("VERIF_KNOWN_SIGS")+",", ","+sig+",") {
+				knownSeen[sig] = true
+				continue
+			}
 			return
 		}
 	}
